@@ -26,6 +26,7 @@ func init() {
 		// transaction within the log, counting the bitmap blocks of the commit
 		ruleShrinkReserve(c, "C07.U9")
 		ruleU10(c, "C07.U10")
+		ruleObjGranularity(c, "C07.U11")
 	}
 }
 
